@@ -10,7 +10,7 @@ from hypothesis import strategies as st
 from vlib.core import SubCheck, Violation
 from vlib.copula_ref import RefCopulaModel
 from vlib.grids import chain_model_spec, model_scale
-from vlib.models import _f, branch_of, build_copula_model, build_model, copula_spec, quad_hints
+from vlib.models import activity, _f, branch_of, build_copula_model, build_model, copula_spec, quad_hints
 from vlib.oracles import nu_integral
 
 PROPERTY_ID = "C12"
@@ -168,6 +168,28 @@ def body(case):
             u2 = float(model.marginal_tail_integral(i, back))
             if abs(u2 - u) > 1e-6 * abs(u):
                 out.append(Violation(f"{tag}/tail-integral-of-inverse", f"margin {i}: {u!r} -> {back!r} -> {u2!r}; {detail}"))
+                break
+    # levels beyond the total mass of a half-line (finite-activity margins; a series cut-off above the intensity): the
+    # generalised inverse is the end of that half-line next to the origin, where the tail integral is saturated
+    for i in range(d):
+        if not activity(case["margins"][i])[0]:
+            continue
+        nu_i = build_model(case["margins"][i], force_exp=False).levy_triplet.nu
+        hints = quad_hints(case["margins"][i])
+        tot = {1.0: nu_integral(nu_i, 0.0, INF, 0, hints)[0], -1.0: nu_integral(nu_i, -INF, 0.0, 0, hints)[0]}
+        sc_i = model_scale(case["margins"][i])
+        for sgn in (1.0, -1.0):
+            if not tot[sgn] > 1e-9:
+                continue
+            lvl = sgn * 1.5 * tot[sgn]
+            back = float(model.inverse_tail_integral(i, lvl))
+            sat = float(model.marginal_tail_integral(i, back)) if back != 0 else sgn * tot[sgn]
+            # (the tail integral at the returned point is below the total by the mass next to the origin, which vanishes
+            # slowly for an activity index just below 0: only its order of magnitude is looked at)
+            if not (abs(back) <= 1e-9 * sc_i and (back == 0 or back * sgn > 0) and 0.5 * tot[sgn] <= abs(sat) <= tot[sgn] * (1 + 1e-6)):
+                out.append(Violation(f"{tag}/inverse-tail-integral/level-beyond-the-mass-of-the-half-line",
+                                     f"margin {i}: level {lvl!r} (half-line mass {tot[sgn]!r}): inverse {back!r}, tail integral "
+                                     f"there {sat!r}; {detail}"))
                 break
     # history independence (LRU caches): a fresh model gives the same answers
     fresh = build_copula_model({"margins": case["margins"], "copula": case["copula"]})
